@@ -60,6 +60,9 @@ type Obligation struct {
 	Secs   float64
 	// Retried: decided only in the second-chance phase (longer limit)
 	Retried bool
+	// LongTried: a `slow` baseline obligation that was given the long last
+	// attempt (run alone, 900 s); still undecided after that counts as failed
+	LongTried bool
 	// Confirmed: other solvers that also answered unsat (thorough tier cross-check)
 	Confirmed []string
 	Model  string
